@@ -116,6 +116,8 @@ var lazyProgs = []lazyProg{
 	// a failing call on literals only, in a branch that may not be taken (a compiler that folds constants must not fail for it)
 	{"if(c, t(1, a), 7 % 0)", func(c, d bool) []int { return when(c, 1) }, func(c, d bool) bool { return c }},
 	{"c || 1 % 0 == 0", func(c, d bool) []int { return nil }, func(c, d bool) bool { return c }},
+	{"if(c, t(1, a), 7 % 0.5)", func(c, d bool) []int { return when(c, 1) }, func(c, d bool) bool { return c }},
+	{"c || 7 % -0.25 == 0", func(c, d bool) []int { return nil }, func(c, d bool) bool { return c }},
 	{"lz(c, t(1, a), 5 % (2 - 2))", func(c, d bool) []int { return when(c, 1) }, func(c, d bool) bool { return c }},
 	// a lazy call to the right of an operand that is already evaluated, inside a lazy argument
 	{"lz(c, t(1, a) + lz(d, t(2, a), t(3, b)), t(4, b))", func(c, d bool) []int { return cat(when(c, 1), when(c && d, 2), when(c && !d, 3), when(!c, 4)) }, yes},
